@@ -60,6 +60,9 @@ def run(tier, seed):
         for f in ("\u00e0", "\u2020", "\u00a0x\u00a0", "\u00e9", "\U0001F4A0"):
             cases.append((base.replace("QZQ x QZQ", "QZQ " + f).encode("utf-8"), None, "%s:frag:U+%04X" % (slot, ord(f[0])), None))
     for x in EXTRA: cases.append((x.encode(), None, "extra", None))
+    # headings of every length from 200 to 300 bytes (and around 500 / 1000): labels and titles travel through formatted writes of their own
+    for n in list(range(200, 301)) + list(range(505, 520)) + list(range(1015, 1030)):
+        cases.append((("# " + "h" * n + "\n\ntext\n").encode(), None, "extra:len%d" % n, None))
     # delimiter soup (every ordered pair of inline delimiters, three shapes); raw '<' '>' pairs are HTML pass-through by design in HTML-family members only
     soup = docs.delimiter_soup()
     for (k, a, b2, d) in (soup if tier == "thorough" else soup[::2]):
